@@ -135,6 +135,42 @@ Proof.
 Qed.
 Print Assumptions C20_stage_lists.
 
+(* A RESTART from a later stage (the first Controller.initialise is for the stage `start`; Model.restart_nodes
+   marks every node of a stage before it as done, as initialise does): for ANY nodes and any starting stage,
+   - the two lists still partition the known stages (no stage in both, every known stage in exactly one),
+   - every known stage before the starting one is FINISHED and not in transit: its weight is counted in full,
+   - the stages from the starting one on are listed exactly as they would be without the restart,
+   - an ordinary launch (start = 0) marks nothing,
+   and the report (k skipped stages, the others with progress a_i/D): at least the weights of the skipped stages, at
+   most one, and one once the remaining stages completed. *)
+Theorem C20_restart_lists : forall (start : Z) (stages : list Z) (nodes : list (Z * bool)) (s : Z),
+  (In s (ctl_finished start stages nodes) -> ~ In s (ctl_in_transit start nodes)) /\
+  (In s stages ->
+   (In s (ctl_finished start stages nodes) /\ ~ In s (ctl_in_transit start nodes)) \/
+   (~ In s (ctl_finished start stages nodes) /\ In s (ctl_in_transit start nodes))) /\
+  (In s stages -> s < start -> In s (ctl_finished start stages nodes) /\ ~ In s (ctl_in_transit start nodes)) /\
+  (start <= s ->
+   (In s (ctl_finished start stages nodes) <-> In s (stages_finished stages nodes)) /\
+   (In s (ctl_in_transit start nodes) <-> In s (stages_in_transit nodes))) /\
+  (Forall (fun nb => 0 <= fst nb) nodes ->
+   ctl_finished 0 stages nodes = stages_finished stages nodes /\ ctl_in_transit 0 nodes = stages_in_transit nodes).
+Proof.
+  intros start stages nodes s.
+  split; [exact (finished_not_in_transit stages (restart_nodes start nodes) s)|].
+  split; [exact (known_stage_counted_once stages (restart_nodes start nodes) s)|].
+  split; [exact (restart_skipped_finished start stages nodes s)|].
+  split; [exact (restart_later_unchanged start stages nodes s)|exact (restart_ordinary_launch stages nodes)].
+Qed.
+Print Assumptions C20_restart_lists.
+
+Theorem C20_restart_progress : forall (D : Z) (k : nat) (ws prog : list Z),
+  0 <= D -> Forall (fun w => 0 <= w) ws -> Forall (fun a => 0 <= a <= D) prog ->
+  (length prog + k = length ws)%nat ->
+  D * sumZ (firstn k ws) <= total ws (restart_prog D k prog) <= D * sumZ ws /\
+  total ws (restart_prog D k (repeat D (length ws - k))) = D * sumZ ws.
+Proof. exact restart_total. Qed.
+Print Assumptions C20_restart_progress.
+
 (* Tie to IEEE-754 doubles (bounded sweeps, bounds in the statement). *)
 Theorem C20_float_tie :
   (forall k, 0 <= k <= 1000 -> tie_k k = true) /\
@@ -214,5 +250,13 @@ Example C20_nonvacuous :
   (* stage 2 had finished, then an iteration of a DoWhile added an active node to it *)
   stages_finished [0; 1; 2; 3] [(0, false); (1, false); (2, false); (3, true)] = [0; 1; 2] /\
   stages_finished [0; 1; 2; 3] [(0, false); (1, false); (2, false); (3, false); (1, true); (2, true); (3, true)] = [0] /\
-  stages_in_transit [(0, false); (1, false); (2, false); (3, false); (1, true); (2, true); (3, true)] = [1; 2; 3].
+  stages_in_transit [(0, false); (1, false); (2, false); (3, false); (1, true); (2, true); (3, true)] = [1; 2; 3] /\
+  (* a restart from stage 2 of four stages weighing 0.4/0.3/0.2/0.1: nothing was delivered yet, stages 0 and 1 are
+     finished, the report starts at 0.7 and ends at one *)
+  ctl_finished 2 [0; 1; 2; 3] [(0, true); (1, true); (2, true); (2, true); (3, true)] = [0; 1] /\
+  ctl_in_transit 2 [(0, true); (1, true); (2, true); (2, true); (3, true)] = [2; 2; 3] /\
+  ctl_finished 0 [0; 1; 2; 3] [(0, true); (1, true); (2, true); (2, true); (3, true)] = [] /\
+  total [4000; 3000; 2000; 1000] (restart_prog 2 2 [0; 0]) = 2 * 7000 /\
+  total [4000; 3000; 2000; 1000] (restart_prog 2 2 [1; 0]) = 2 * 8000 /\
+  total [4000; 3000; 2000; 1000] (restart_prog 2 2 (repeat 2 (4 - 2))) = 2 * 10000.
 Proof. repeat split; reflexivity. Qed.
